@@ -1,4 +1,3 @@
-import Regatta.Extracted.Facts
 import Regatta.Model.ReadPath
 import Regatta.Props.C10
 /-
@@ -61,37 +60,3 @@ example :
 
 end Regatta.Props.C10Reads
 
-namespace Regatta.Props.C10Reads
-
-/-- **the table layer passes on what the model assumes it passes on** (storage/table/table.go, read with
-go/parser on every run): `Range` and `Iterator` hand the request's own `linearizable` flag to `readTable`
-and forward key, range end, limit and both flags to the state machine; `Range` copies pairs, count and
-`more` back; a read-only `Txn` always asks for the consensus read; `Put` / `Delete` / `Txn` build the
-proposed command from the request's fields (previous-pair and count flags included) and answer with the
-state machine's results and revision.  The model's `path` and the `apiOp` / `apiTxn` bridge rest on
-exactly this. -/
-theorem c10_table_layer_forwards_match_source :
-    Regatta.Extracted.tableLayerForwards =
-      ["Range: readTable linearizable=req.Linearizable",
-       "Range: regattapb.RequestOp_Range{Key: req.Key, RangeEnd: req.RangeEnd, Limit: req.Limit, KeysOnly: req.KeysOnly, CountOnly: req.CountOnly}",
-       "Range: regattapb.RangeResponse{Kvs: response.Kvs, Count: response.Count, More: response.More}",
-       "Iterator: readTable linearizable=req.Linearizable",
-       "Iterator: fsm.IteratorRequest{RangeOp: {..}}",
-       "Iterator: regattapb.RequestOp_Range{Key: req.Key, RangeEnd: req.RangeEnd, Limit: req.Limit, KeysOnly: req.KeysOnly, CountOnly: req.CountOnly}",
-       "Put: regattapb.Command{Type: regattapb.Command_PUT, Table: req.Table, Kv: {..}, PrevKvs: req.PrevKv}",
-       "Put: regattapb.KeyValue{Key: req.Key, Value: req.Value}",
-       "Put: regattapb.PutResponse{PrevKv: r.ResponsePut.PrevKv, Header: {..}}",
-       "Put: regattapb.ResponseHeader{Revision: rev}",
-       "Delete: regattapb.Command{Type: regattapb.Command_DELETE, Table: req.Table, Kv: {..}, PrevKvs: req.PrevKv, RangeEnd: req.RangeEnd, Count: req.Count}",
-       "Delete: regattapb.KeyValue{Key: req.Key}",
-       "Delete: regattapb.DeleteRangeResponse{Deleted: r.ResponseDeleteRange.Deleted, PrevKvs: r.ResponseDeleteRange.PrevKvs, Header: {..}}",
-       "Delete: regattapb.ResponseHeader{Revision: rev}",
-       "Txn: readTable linearizable=true",
-       "Txn: regattapb.Command{Type: regattapb.Command_TXN, Table: req.Table, Txn: {..}}",
-       "Txn: regattapb.Txn{Compare: req.Compare, Success: req.Success, Failure: req.Failure}",
-       "Txn: regattapb.CommandResult{}",
-       "Txn: regattapb.TxnResponse{Succeeded: fsm.UpdateResult(res.Value) == fsm.ResultSuccess, Responses: txr.Responses, Header: {..}}",
-       "Txn: regattapb.ResponseHeader{Revision: txr.Revision}"] :=
-  rfl
-
-end Regatta.Props.C10Reads
